@@ -308,6 +308,8 @@ var cerrClasses = []struct{ sub, cls string }{
 	{"unexpected encrypted client hello extension", "unexpected-ech"},
 	{"two HelloRetryRequest", "two-hrr"},
 	{"multiple padding extensions", "multi-padding"},
+	{"that the ClientHello did not advertise", "version-not-advertised"},
+	{"too long to be encoded", "too-long"},
 }
 
 func cerrClass(err error) string {
@@ -736,7 +738,7 @@ func runScripted(id tls.ClientHelloID, spec *tls.ClientHelloSpec, rseed uint64, 
 // custom specs: shapes of extension lists around the cookie-insertion code
 var scriptShapes = []string{
 	"ks", "ver+ks", "ver+curves+ks", "min4", "min5", "cookie-first", "cookie-mid", "cookie-last", "two-cookies",
-	"pad-last-boring", "pad-last-fixed", "pad-mid-boring", "pad-last-off", "psk-last", "pad+psk", "fakepsk-last", "two-ks", "big",
+	"pad-last-boring", "pad-last-fixed", "pad-mid-boring", "pad-last-off", "psk-last", "pad+psk", "fakepsk-last", "two-ks", "big", "no-ver",
 }
 
 func shapeExts(shape string, r *Rng) []string {
@@ -785,6 +787,8 @@ func shapeExts(shape string, r *Rng) []string {
 	case "fakepsk-last": // a pre_shared_key that is on the wire (no session cache: not "in use" for the retry logic)
 		return []string{sni, ver, curves, ks, sig, "psk_modes|1", padB,
 			fmt.Sprintf("psk|1|0|0|%s:%d|%s", hx(r.Bytes(1+r.Intn(40))), r.Intn(1<<30), hx(r.Bytes(32)))}
+	case "no-ver": // TLS 1.3 allowed by TLSVersMax only, not advertised on the wire: the HRR must be refused
+		return []string{sni, curves, ks, sig}
 	case "no-ks":
 		return []string{sni, ver, curves, sig}
 	case "empty":
@@ -835,6 +839,9 @@ func genScript(r *Rng, i int, tier string) string {
 	ck := cookieLens[r.Intn(len(cookieLens))]
 	if r.Intn(3) == 0 {
 		ck = 1 + r.Intn(200)
+	}
+	if i%53 == 7 {
+		ck = 65400 // the second hello no longer fits the uint16 extensions length
 	}
 	if i%3 == 2 {
 		id := ids[(i/3)%len(ids)]
